@@ -106,6 +106,7 @@ type interpreter struct {
 	initing  map[*ssa.Package]bool
 	nowTick  int64
 	bypass   *ssa.Function // call the real body of this function once, not its intrinsic
+	tolerantInit *ssa.Function
 	twinLabel string
 	baseMapOrder int
 	atomicAdversary func(p *value)
@@ -149,6 +150,7 @@ type frame struct {
 	panicking        bool
 	panic            interface{}
 	phitemps         []value // temporaries for parallel phi assignment
+	tolerant         bool    // package initialiser: a failing instruction yields a zero value
 }
 
 func (fr *frame) get(key ssa.Value) value {
@@ -599,6 +601,10 @@ func callSSA(i *interpreter, caller *frame, callpos token.Pos, fn *ssa.Function,
 		panic("interp requires ssa.BuilderMode to include InstantiateGenerics to execute generics")
 	}
 
+	if i.tolerantInit == fn {
+		fr.tolerant = true
+		i.tolerantInit = nil
+	}
 	fr.env = make(map[ssa.Value]value)
 	fr.block = fn.Blocks[0]
 	fr.locals = make([]value, len(fn.Locals))
@@ -687,6 +693,12 @@ func runFrame(fr *frame) {
 				if ps.steps > ps.maxSteps {
 					panic(engineError(fmt.Sprintf("step budget exceeded (%d) in %s", ps.maxSteps, fr.fn)))
 				}
+			}
+			if fr.tolerant {
+				if visitTolerant(fr, instr) == kReturn {
+					return
+				}
+				continue
 			}
 			if visitInstr(fr, instr) == kReturn {
 				return
@@ -778,4 +790,43 @@ func stripTypeArgs(s string) string {
 		}
 	}
 	return sb.String()
+}
+
+// visitTolerant executes one instruction of a package initialiser; if it cannot be
+// executed (unsupported runtime facility) its result is the zero value and
+// initialisation continues, so that unrelated globals still get their values.
+func visitTolerant(fr *frame, instr ssa.Instruction) (k continuation) {
+	defer func() {
+		if r := recover(); r != nil {
+			if _, isKill := r.(goKill); isKill {
+				panic(r)
+			}
+			if v, ok := instr.(ssa.Value); ok {
+				func() {
+					defer func() { recover() }()
+					fr.env[v] = zero(v.Type())
+				}()
+			}
+			fr.i.stats.InitFailures = append(fr.i.stats.InitFailures, fmt.Sprintf("%s: %v", fr.fn, firstLineOf(fmt.Sprint(r))))
+			switch instr.(type) {
+			case *ssa.If, *ssa.Jump, *ssa.Return, *ssa.Panic:
+				// control flow cannot be skipped: give up on this initialiser
+				fr.block = nil
+				k = kReturn
+			default:
+				k = kNext
+			}
+		}
+	}()
+	return visitInstr(fr, instr)
+}
+
+func firstLineOf(s string) string {
+	if i := strings.IndexByte(s, '\n'); i >= 0 {
+		s = s[:i]
+	}
+	if len(s) > 200 {
+		s = s[:200]
+	}
+	return s
 }
